@@ -54,6 +54,9 @@ Reset == Ev.e = "Reset" /\ Load(Ev) /\ Proj' = Ev.proj
 
 Begin == /\ Ev.e = "Begin"
          /\ LET c0 == IF cache # <<>> THEN cache[1] ELSE FreshCands IN Ev.props = Pick(c0)
+         \* the score the real packer put into the header: the proposers left active (PoA)
+         /\ LET c0 == IF cache # <<>> THEN cache[1] ELSE FreshCands IN
+            Has(Ev, "score") => Ev.score = Cardinality((ActiveOf(Pick(c0)) \cup {Ev.who}) \ ToSet(Ev.offs))
          /\ BeginBlock(Ev.who, ToSet(Ev.offs))
 
 Add == /\ Ev.e = "Add"
